@@ -14,7 +14,8 @@
     node), [sumZ] (sum over nodes), [balancedb], [count_el], [total_hc], [total_charge], [elem_count] (atoms of an
     element plus, for hydrogen, the implicit hydrogens). *)
 From Coq Require Import List NArith ZArith Bool.
-From SK Require Import lib.Tok lib.LGraph model.C03_Model proof.C03_Spec proof.C03_Proof proof.C03_Glue proof.C03_Backward.
+From SK Require Import lib.Tok lib.LGraph model.C03_Model proof.C03_Spec proof.C03_Proof proof.C03_Glue proof.C03_Backward
+                       proof.C03_ExplicitH.
 Import ListNotations.
 Local Open Scope Z_scope.
 
@@ -162,3 +163,42 @@ Theorem C03_synrule_implicit : forall tpl : its, nodupb (node_ids tpl) = true ->
   synrule tpl false = Some (tpl, fst (its_decompose tpl), snd (its_decompose tpl)).
 Proof. exact synrule_implicit. Qed.
 Print Assumptions C03_synrule_implicit.
+
+(** ** the explicit-hydrogen stage (_explicit_h after gluing) — PARTIAL
+
+    Full statement wanted: (a)-(c) for the graph returned by _explicit_h on the hydrogen-expanded substrate, i.e.
+    additionally (i) every re-match produced by _get_explicit_map is again a valid match ([match_rcb]) of the explicit
+    pattern on the expanded host — this is VF2 output, checked per case by the correspondence ([match_okb] on every
+    re-match), not proved; (ii) the new H atoms realise exactly the template's explicit hydrogens (pairing donors and
+    recipients inside one h_pairs component is first-fit, and which H atom of the template each one stands for is
+    not tracked by the code).  Proved here: the hydrogen / element / charge bookkeeping of _explicit_h for ANY input
+    graph with distinct node ids: donors and recipients are atoms of the graph; both sides keep every element count
+    (hydrogen = explicit atoms + implicit counts) and the total charge; no bond between two old atoms is touched; every
+    old atom keeps both tuples up to the hydrogen count, its hcount attribute and its h_pairs; exactly one atom is
+    added per migration. *)
+Theorem C03_explicitH_partial : forall (T T' : its) (ms : list (N * N)),
+  NoDup (node_ids T) -> explicit_h T = Some (T', ms) ->
+  (forall sd : N * N, In sd ms -> has_node T (fst sd) = true /\ has_node T (snd sd) = true) /\
+  (forall e : N, elem_count e (fst (its_decompose T')) = elem_count e (fst (its_decompose T)) /\
+                 elem_count e (snd (its_decompose T')) = elem_count e (snd (its_decompose T))) /\
+  (total_charge (fst (its_decompose T')) = total_charge (fst (its_decompose T)) /\
+   total_charge (snd (its_decompose T')) = total_charge (snd (its_decompose T))) /\
+  (forall a b : N, In a (node_ids T) -> In b (node_ids T) -> adj T' a b = adj T a b) /\
+  (forall (n : N) (a : inode), label T n = Some a ->
+     exists a' : inode, label T' n = Some a' /\
+       set_hc (iG a') 0 = set_hc (iG a) 0 /\ set_hc (iH a') 0 = set_hc (iH a) 0 /\ i_hc a' = i_hc a /\ i_hp a' = i_hp a) /\
+  length (gnodes T') = (length (gnodes T) + length ms)%nat.
+Proof. exact explicit_h_accounting. Qed.
+Print Assumptions C03_explicitH_partial.
+
+(** gluing followed by _explicit_h: a balanced rule still yields a balanced reaction whose reactant side has the
+    substrate's element counts and, between substrate atoms, exactly the substrate's bonds *)
+Theorem C03_explicitH_conserve : forall (host : hostg) (rc : its) (m : mapping) (T T' : its) (ms : list (N * N)),
+  wf_hostb host = true -> wf_rcb rc = true -> match_rcb host rc m = true -> glue host rc m = Some T ->
+  balancedb rc = true -> explicit_h T = Some (T', ms) ->
+  (forall e : N, elem_count e (fst (its_decompose T')) = elem_count e (snd (its_decompose T'))) /\
+  total_charge (fst (its_decompose T')) = total_charge (snd (its_decompose T')) /\
+  (forall e : N, elem_count e (fst (its_decompose T')) = elem_count e (mol_of_host host)) /\
+  (forall a b : N, In a (node_ids host) -> In b (node_ids host) -> bondG T' a b = adj host a b).
+Proof. exact explicit_h_conserve. Qed.
+Print Assumptions C03_explicitH_conserve.
